@@ -1,0 +1,29 @@
+//go:build verif
+
+// Contracts for the deductive verifier in /verif (comment-only; compiled only
+// with -tags verif).  Syntax: see /verif/DESIGN.md.
+package git
+
+// C11: every source built from a file or a blob is restricted to safe keys;
+// Git's own configuration is not, and it is the last element of Sources().
+//@ func ParseConfigLines
+//@   props C11
+//@   ensures result != nil && result.OnlySafeKeys == onlySafeKeys
+
+//@ func (*Configuration).FileSource
+//@   props C11
+//@   ensures result0 != nil ==> result0.OnlySafeKeys
+
+//@ func (*Configuration).RevisionSource
+//@   props C11
+//@   ensures result0 != nil ==> result0.OnlySafeKeys
+
+//@ func (*Configuration).Source
+//@   props C11
+//@   ensures result1 == nil ==> (result0 != nil && !result0.OnlySafeKeys)
+
+//@ func (*Configuration).Sources
+//@   props C11
+//@   ensures result1 == nil ==> (len(result0) >= 1 && len(result0) <= 2)
+//@   ensures result1 == nil ==> (result0[len(result0)-1] != nil && !result0[len(result0)-1].OnlySafeKeys)
+//@   ensures result1 == nil && len(result0) == 2 ==> (result0[0] != nil && result0[0].OnlySafeKeys)
